@@ -34,15 +34,19 @@ type rtArgs struct {
 	Profiles []string        `json:"profiles,omitempty"`
 	NameOpt  string          `json:"name_opt,omitempty"` // project name given as an option ("" = taken from the document)
 	Focus    string          `json:"focus,omitempty"`    // informational: the attribute this document is about
+	// round 6: further compose files merged over the first one, in order (override-1.yaml, override-2.yaml, …);
+	// the rendering is reloaded alone
+	Overrides []json.RawMessage `json:"overrides,omitempty"`
 }
 
 type rtOut struct {
-	Skip    string   `json:"skip,omitempty"`
-	Fail    string   `json:"fail,omitempty"` // stable key
-	What    string   `json:"what,omitempty"`
-	Ok      bool     `json:"ok,omitempty"`
-	Covered []string `json:"covered,omitempty"`
-	Bytes   int      `json:"bytes,omitempty"`
+	Skip    string     `json:"skip,omitempty"`
+	Fail    string     `json:"fail,omitempty"` // stable key
+	What    string     `json:"what,omitempty"`
+	Ok      bool       `json:"ok,omitempty"`
+	Covered []string   `json:"covered,omitempty"`
+	Bytes   int        `json:"bytes,omitempty"`
+	Hist    *histTrace `json:"hist,omitempty"` // c09.history only
 }
 
 func (a rtArgs) req(file, content string) core.LoadReq {
@@ -51,7 +55,13 @@ func (a rtArgs) req(file, content string) core.LoadReq {
 		files[k] = v
 	}
 	files[file] = content
-	return core.LoadReq{Files: files, ConfigFiles: []string{file}, Env: c09Env, ProjectName: a.NameOpt, Profiles: a.Profiles,
+	cfs := []string{file}
+	for i, o := range a.Overrides {
+		n := fmt.Sprintf("override-%d.yaml", i+1)
+		files[n] = string(o)
+		cfs = append(cfs, n)
+	}
+	return core.LoadReq{Files: files, ConfigFiles: cfs, Env: c09Env, ProjectName: a.NameOpt, Profiles: a.Profiles,
 		SkipNormalization: a.SkipNorm, NoResolvePaths: a.NoPaths}
 }
 
@@ -63,7 +73,8 @@ var (
 	reNonKey    = regexp.MustCompile(`[^A-Za-z0-9_.*:/\[\]-]+`)
 	reDecodeErr = regexp.MustCompile(`error decoding '([^']+)': ([^\n]*)`)
 	reBracket   = regexp.MustCompile(`\[[^\]]*\]`)
-	reFilePath  = regexp.MustCompile(`\S*rendered\.(yaml|json):?`)
+	reFilePath  = regexp.MustCompile(`\S*rendered(-[0-9]+)?\.(yaml|json):?`)
+	reItems     = regexp.MustCompile(`items\[[0-9, ]+\]`) // gojsonschema: "array items[0,1] must be unique" — positions are not part of the key
 )
 
 // errKey turns an error text into a short stable token (no names, indices, temp paths).
@@ -74,6 +85,7 @@ func errKey(err error, root string) string {
 		s = "decode:" + reBracket.ReplaceAllString(m[1], "[*]") + ":" + m[2]
 	}
 	s = reFilePath.ReplaceAllString(s, "")
+	s = reItems.ReplaceAllString(s, "items")
 	s = strings.ReplaceAll(s, "$ROOT", "")
 	s = reSvcName.ReplaceAllString(s, "$1.*")
 	s = reIndex.ReplaceAllString(s, ".*")
@@ -460,6 +472,12 @@ func realRoundTrip(raw json.RawMessage) any {
 	check := func(r core.LoadReq, pre string) *rtOut {
 		p2, err := r.LoadIn(root)
 		if err != nil || p2 == nil {
+			if f := duplicatesLoaded(p); f != "" && err != nil && strings.Contains(err.Error(), "must be unique") {
+				// the LOADED project already holds one item twice (two spellings of it were not recognised as one): the rendering
+				// is faithful and the schema refuses it.  Keyed by the field, so that a marshaller that duplicates items
+				// (same schema message, project without duplicates) keeps its own key.
+				return &rtOut{Fail: pre + "reload-error:" + a.Format + ":duplicates-loaded:" + f, What: fmt.Sprintf("the loaded project holds an item twice in %s and its rendering does not load: %v\n%s", f, core.ScrubErr(err, root), clip(string(b1), 1500)), Covered: covered}
+			}
 			return &rtOut{Fail: pre + "reload-error:" + a.Format + ":" + errKey(err, root), What: fmt.Sprintf("the rendering does not load: %v\n%s", core.ScrubErr(err, root), clip(string(b1), 1500)), Covered: covered}
 		}
 		sortSSH(p2)
@@ -502,6 +520,56 @@ func realRoundTrip(raw json.RawMessage) any {
 		return *o
 	}
 	return rtOut{Ok: true, Covered: covered, Bytes: len(b1)}
+}
+
+// duplicatesLoaded names the first (in name order) Type.Field of the project holding a list of strings with one item twice.
+func duplicatesLoaded(p *types.Project) string {
+	found := map[string]bool{}
+	var walk func(v reflect.Value, field string)
+	walk = func(v reflect.Value, field string) {
+		switch v.Kind() {
+		case reflect.Ptr, reflect.Interface:
+			if !v.IsNil() {
+				walk(v.Elem(), field)
+			}
+		case reflect.Struct:
+			t := v.Type()
+			for i := 0; i < t.NumField(); i++ {
+				if t.Field(i).IsExported() {
+					walk(v.Field(i), t.Name()+"."+t.Field(i).Name)
+				}
+			}
+		case reflect.Slice:
+			if v.Type().Elem().Kind() == reflect.String {
+				seen := map[string]bool{}
+				for i := 0; i < v.Len(); i++ {
+					if seen[v.Index(i).String()] {
+						found[field] = true
+					}
+					seen[v.Index(i).String()] = true
+				}
+				return
+			}
+			for i := 0; i < v.Len(); i++ {
+				walk(v.Index(i), field)
+			}
+		case reflect.Map:
+			it := v.MapRange()
+			for it.Next() {
+				walk(it.Value(), field)
+			}
+		}
+	}
+	walk(reflect.ValueOf(p.Services), "Project.Services")
+	var l []string
+	for f := range found {
+		l = append(l, f)
+	}
+	sort.Strings(l)
+	if len(l) == 0 {
+		return ""
+	}
+	return l[0]
 }
 
 func clip(s string, n int) string {
@@ -784,6 +852,9 @@ func runC09Oracle(ctx *core.Ctx) {
 		ctx.Count("random:format=" + m.format)
 		addDoc(ctx, doc, m, "random", profiles, "")
 	}
+	// ---- 2b. round 6: the same entity spelled twice (one file / merged files / extends); histories of renderings
+	runC09Twice(ctx)
+	runC09History(ctx)
 	ctx.Wait()
 	// ---- 3. coverage of the model types by the projects loaded above
 	var uncovered []string
